@@ -1,11 +1,11 @@
 package rules
 
 import (
-	"tinkverif/consteval"
 	"fmt"
 	"go/token"
 	"regexp"
 	"strings"
+	"tinkverif/consteval"
 
 	"golang.org/x/tools/go/ssa"
 
@@ -452,7 +452,9 @@ func c07Nonce(c *Ctx) {
 	if !layoutByValue {
 		r.Check(okCtr && okFlag, "C07.nonce", "C07.nonce/generateSegmentNonce/layout", p.FuncPos(g), "nonce is not prefix || be32(counter) at len(prefix) || last flag at len(prefix)+4 (set only when last)", "counter at len(prefix); flag at +4 under last")
 	}
-	_ = func() { r.Check(okCtr && okFlag, "C07.nonce", "C07.nonce/generateSegmentNonce/layout", p.FuncPos(g), "nonce is not prefix || be32(counter) at len(prefix) || last flag at len(prefix)+4 (set only when last)", "counter at len(prefix); flag at +4 under last") }
+	_ = func() {
+		r.Check(okCtr && okFlag, "C07.nonce", "C07.nonce/generateSegmentNonce/layout", p.FuncPos(g), "nonce is not prefix || be32(counter) at len(prefix) || last flag at len(prefix)+4 (set only when last)", "counter at len(prefix); flag at +4 under last")
+	}
 	// callers
 	type want struct {
 		typ, method, counter string
